@@ -8,8 +8,10 @@ binds it (the Loc of the declaring identifier) or that it is a global.  Written 
   * a numeric / generic `for` declares its variables for the body only (not for the bounds / explist);
   * the condition of `repeat … until` can see the locals of the loop block;
   * function parameters are locals of the body; a method (`function a:m()`) has the implicit `self`.
-The flag `tr` selects LuaHelper's own traversal-time variant (`bindTraversal`), which differs in ONE
-place: in `local a, b = e1, e2` the name `a` is already inserted while `e2` is analysed.
+The flag `tr` selects LuaHelper's own traversal-time variant (`bindTraversal`).  It used to differ in ONE
+place — in `local a, b = e1, e2` the name `a` was already inserted while `e2` was analysed
+(`bLocalInterleaved`, kept to state what the defect was); since the repair of cgLocalVarDeclStat the
+traversal analyses every initialiser before it inserts a name, and the two variants are written alike.
 All functions are structurally recursive (no `partial`), so theorems can be proved about them.
 Core Lean only.
 -/
@@ -128,15 +130,6 @@ def bTargets (tr : Bool) (env : Env) (exps : List Exp) (i : Nat) : List Exp → 
   | [] => []
   | .name n l :: r => { use env n l true with init := initAt exps i } :: bTargets tr env exps (i + 1) r
   | v :: r => bExp tr env v ++ bTargets tr env exps (i + 1) r
-/-- LuaHelper's traversal of `local n1, n2, … = e1, e2, …`: name i is inserted right after e_i -/
-def bLocalTr (tr : Bool) (sl : Loc) (env : Env) : List (Bytes × Loc × Nat) → List Exp → List Occ × Env
-  | ns, [] => (ns.map (fun (n, l, _) => declOcc n l sl), pushNames env ns)
-  | [], e :: es =>
-    let (o, env') := bLocalTr tr sl env [] es
-    (bExp tr env e ++ o, env')
-  | (n, l, k) :: ns, e :: es =>
-    let (o, env') := bLocalTr tr sl ((n, l) :: env) ns es
-    (bExp tr env e ++ [{ declOcc n l sl with init := initDesc e }] ++ o, env')
 def bStat (tr : Bool) (env : Env) : Stat → List Occ × Env
   | .do_ b _ => ((bBlock tr env b).1, env)
   | .while_ c b _ => (bExp tr env c ++ (bBlock tr env b).1, env)
@@ -150,12 +143,21 @@ def bStat (tr : Bool) (env : Env) : Stat → List Occ × Env
       (bBlock tr (pushParams env ns) b).1, env)
   | .assign vars exps _ => (bExps tr env exps ++ bTargets tr env exps 0 vars, env)
   | .local_ names exps sl =>
-    if tr then bLocalTr tr sl env names exps
-    else (bExps tr env exps ++ localDecls sl names exps, pushNames env names)
+    -- every initialiser (also surplus ones) in the environment before the statement, then the names
+    (bExps tr env exps ++ localDecls sl names exps, pushNames env names)
   | .localfn n nl f _ => ([declOcc n nl ⟨0, 0, 0, 0⟩ "N"] ++ bFunc tr ((n, nl) :: env) f, (n, nl) :: env)
   | .callstat e => (bExp tr env e, env)
   | _ => ([], env)
 end
+
+/-- the traversal of `local n1, n2, … = e1, e2, …` BEFORE the repair: name i was inserted right after e_i
+    and nothing past the first surplus initialiser was analysed -/
+def bLocalInterleaved (sl : Loc) (env : Env) : List (Bytes × Loc × Nat) → List Exp → List Occ × Env
+  | ns, [] => (ns.map (fun (n, l, _) => declOcc n l sl), pushNames env ns)
+  | [], e :: _ => (bExp false env e, env)
+  | (n, l, _) :: ns, e :: es =>
+    let (o, env') := bLocalInterleaved sl ((n, l) :: env) ns es
+    (bExp false env e ++ [{ declOcc n l sl with init := initDesc e }] ++ o, env')
 
 /-- every identifier occurrence of a chunk with its binding under Lua's rules -/
 def bindChunk (b : Block) : List Occ := (bBlock false [] b).1
